@@ -35,6 +35,8 @@ pub enum TOp {
     IsAliveOwn,
     JoinAll,
     LazyExec,
+    /// a queued action that re-enters `World::maintain` (everything queued behind it must still run once)
+    LazyExecMaintain,
     LazyInsertInit0,
     LazyCreate,
 }
@@ -321,6 +323,16 @@ fn run_program(p: &Program, prop_c17: bool) -> ExecResult {
                         lazy_seq += 1;
                         let ll = lazy_log.clone();
                         lazy.exec(move |_| ll.lock().unwrap().push(id));
+                        log.lazy_ids.push(id);
+                    }
+                    TOp::LazyExecMaintain => {
+                        let id = 1000 * (ti as u32 + 1) + lazy_seq;
+                        lazy_seq += 1;
+                        let ll = lazy_log.clone();
+                        lazy.exec_mut(move |w| {
+                            ll.lock().unwrap().push(id);
+                            w.maintain();
+                        });
                         log.lazy_ids.push(id);
                     }
                     TOp::LazyInsertInit0 => {
@@ -625,7 +637,7 @@ fn thread_programs(alphabet: &[TOp], max_len: usize) -> Vec<Vec<TOp>> {
 
 pub fn programs(thorough: bool) -> Vec<(Program, usize)> {
     use TOp::*;
-    let full = [Create, CreateIter2, Build, BuildDropped, DeleteInit0, DeleteOwn, IsAliveInit0, JoinAll, LazyExec, LazyInsertInit0, LazyCreate, DeleteOwnAgain, IsAliveOwn];
+    let full = [Create, CreateIter2, Build, BuildDropped, DeleteInit0, DeleteOwn, IsAliveInit0, JoinAll, LazyExec, LazyInsertInit0, LazyCreate, DeleteOwnAgain, IsAliveOwn, LazyExecMaintain];
     let core = [Create, CreateIter2, BuildDropped, DeleteInit0, DeleteOwn, JoinAll, LazyExec];
     let mut out = vec![];
     let worlds: Vec<(usize, usize)> = vec![(0, 1), (1, 1), (2, 1), (1, 2), (2, 2)];
@@ -658,6 +670,13 @@ pub fn programs(thorough: bool) -> Vec<(Program, usize)> {
             for other in [vec![Create], vec![DeleteInit0], vec![JoinAll], vec![CreateIter2], vec![BuildDropped]] {
                 out.push((Program { free: *free, live: *live, threads: vec![mine.clone(), other] }, 2));
             }
+        }
+    }
+    // a queued action that re-enters maintain, with other work queued behind it from both threads
+    for (free, live) in &[(1usize, 1usize), (2, 2)] {
+        for other in [vec![LazyExec], vec![LazyInsertInit0], vec![LazyCreate], vec![Create, LazyExec], vec![DeleteInit0, LazyExec], vec![LazyExecMaintain]] {
+            out.push((Program { free: *free, live: *live, threads: vec![vec![LazyExecMaintain, LazyExec], other.clone()] }, 2));
+            out.push((Program { free: *free, live: *live, threads: vec![vec![LazyExec, LazyExecMaintain], other] }, 2));
         }
     }
     // 3 threads x 1 operation
